@@ -90,7 +90,12 @@ def run(ctx):
                               max_steps=300 if ctx.tier == 'quick' else 2000,
                               init={0: (1 << dw) - 1}))
         # write ports fed by registers directly; one port folded from two conditional branches
-        for style in ('regports', 'cond'):
+        # address spaces wider than 32 bits (aliases modulo 2**32 and 2**8)
+        tasks.append(dict(simname=sim, aw=33, dw=4, pre=(), seed=ctx.seed, max_steps=300,
+                          addr_pool=[3, (1 << 32) + 3, (1 << 32), 0, (1 << 33) - 1, (1 << 32) - 1, 259, (1 << 32) + 259]))
+        tasks.append(dict(simname=sim, aw=40, dw=9, pre=(), seed=ctx.seed + 2, max_steps=200,
+                          addr_pool=[7, (1 << 32) + 7, (1 << 39) + 7, (5 << 32) + 7, 1 << 36]))
+        for style in ('regports', 'cond', 'constenable'):
             for (aw, dw) in [(1, 2), (2, 3), (3, 70)]:
                 tasks.append(dict(simname=sim, aw=aw, dw=dw, pre=(), seed=ctx.seed, max_steps=200, style=style))
             tasks.append(dict(simname=sim, aw=2, dw=3, pre=('synthesize',), seed=ctx.seed, max_steps=120, style=style))
